@@ -833,6 +833,7 @@ def directed_programs():
             ('el++', ('expr', ('inc', 'x++', ('idx', 'arr', N(2))))), ('d++', ('expr', ('inc', 'x++', V('d')))),
             ('d>>=1', ('expr', ('asg', '>>=', V('d'), N(1)))), ('s+=300', ('expr', ('asg', '+=', V('s'), N(300)))),
             ('Y=Y', asg(V('Y'), V('Y'))), ('X=X', asg(V('X'), V('X')))]
+    mids.append(('asm', ('asm', '; inline text')))
     for mn, mid in mids:
         for dn, dst in (('a', V('a')), ('X', V('X')), ('Y', V('Y'))):
             if mn in ('Y=Y', 'X=X') and dn != 'a':
